@@ -132,7 +132,7 @@ func (c *CircuitBreaker) activateFallback(_ http.ResponseWriter, _ *http.Request
 	c.m.Lock()
 	defer c.m.Unlock()
 
-	c.log.Warn("%v is in error state", c)
+	c.log.Warn("%v is in error state", held{c})
 
 	switch c.state {
 	case stateStandby:
@@ -182,6 +182,18 @@ func (c *CircuitBreaker) isStandby() bool {
 
 // String returns log-friendly representation of the circuit breaker state.
 func (c *CircuitBreaker) String() string {
+	c.m.RLock()
+	defer c.m.RUnlock()
+	return c.describe()
+}
+
+// held is how the breaker hands itself to its own logger while it already holds c.m.
+type held struct{ c *CircuitBreaker }
+
+func (h held) String() string { return h.c.describe() }
+
+// describe formats the state; the caller holds c.m.
+func (c *CircuitBreaker) describe() string {
 	switch c.state {
 	case stateTripped, stateRecovering:
 		return fmt.Sprintf("CircuitBreaker(state=%v, until=%v)", c.state, c.until)
@@ -203,7 +215,7 @@ func (c *CircuitBreaker) exec(s SideEffect) {
 }
 
 func (c *CircuitBreaker) setState(state cbState, until time.Time) {
-	c.log.Debug("%v setting state to %v, until %v", c, state, until)
+	c.log.Debug("%v setting state to %v, until %v", held{c}, state, until)
 	c.state = state
 	c.until = until
 	switch state {
@@ -236,7 +248,7 @@ func (c *CircuitBreaker) checkAndSet() {
 	c.lastCheck = clock.Now().UTC().Add(c.checkPeriod)
 
 	if c.state == stateTripped {
-		c.log.Debug("%v skip set tripped", c)
+		c.log.Debug("%v skip set tripped", held{c})
 		return
 	}
 
